@@ -126,6 +126,23 @@ def run(ctx, res):
         res.ok("ABORT-CALLS", "commands::run_command: Command::Abort arm calls Stack::pop_to_toplevel")
     else:
         res.bad("ABORT-CALLS", "commands::run_command # Command::Abort", "the Command::Abort arm does not call Stack::pop_to_toplevel", rc.loc())
+    # the reset must be unconditional: every path from the Abort arm's entry to a return passes through it
+    n_arm = 0
+    for sw in D.enum_switches(rc):
+        if D.short_ty(sw["ety"]) != "Command":
+            continue
+        for tgt, names in sw["by_target"].items():
+            if names != ["Abort"]:
+                continue
+            n_arm += 1
+            leak = D.reach_from(rc, [tgt], avoid_blocks=pops) & set(rc.exits())
+            if leak:
+                res.bad("ABORT-CALLS", "commands::run_command # Command::Abort # conditional",
+                        "the Command::Abort arm can return without calling Stack::pop_to_toplevel (the reset is conditional): "
+                        "`:abort` then answers but leaves the session inside the aborted evaluation", rc.loc(rc.blocks[tgt]["term"].get("span")))
+            else:
+                res.ok("ABORT-CALLS", "every path through the Command::Abort arm resets the stack")
+    res.floor("ABORT-CALLS", "Command::Abort arms in run_command", n_arm, 1)
     # ---- NO-EVAL-AFTER-ABORT
     reaches_eval = set()
     E = P.edges()
